@@ -834,12 +834,15 @@ class DocTest:
                 except KeyboardInterrupt:  # nocover
                     raise
                 except Exception:
-                    raise
-                    # self.exc_info = sys.exc_info()
-                    # ex_type, ex_value, tb = self.exc_info
-                    # self.failed_tb_lineno = tb.tb_lineno
-                    # if on_error == 'raise':
-                    #     raise
+                    # Errors that are only detected when the part is compiled
+                    # (e.g. "return" outside of a function) are recorded like
+                    # any other failure of the part.
+                    self.exc_info = sys.exc_info()
+                    ex_type, ex_value, tb = self.exc_info
+                    self.failed_tb_lineno = getattr(ex_value, 'lineno', None) or 1
+                    if on_error == 'raise':
+                        raise
+                    break
                 try:
                     # Execute the doctest code
                     try:
